@@ -153,3 +153,15 @@ EVIDENCE = {
         "set literals and comprehensions are reached only through the real PYTHONHASHSEED configurations, not through the shim",
     ],
 }
+
+
+SYSTEMATIC = cc.systematic_algebra()
+
+
+def generate_indexed(index, run_seed, tier):
+    """The first len(SYSTEMATIC) run indices are an enumerated family of boundary cases; the rest is seeded sampling."""
+    if index < len(SYSTEMATIC):
+        cf = stream(run_seed, "order")
+        return {"property": PROPERTY, "program": SYSTEMATIC[index],
+                "config": {"order_keys": cc.order_keys(cf, 6 if tier == "quick" else 10), "systematic": True}}
+    return generate(run_seed, tier)
